@@ -1084,7 +1084,7 @@ class CircuitTemplate(AbstractBaseTemplate):
         hierarchies.
 
         """
-        edges = self.edges
+        edges = list(self.edges)
         for c_scope, c in self.circuits.items():
             edges_tmp = c.collect_edges()
             for svar, tvar, template, edge_dict in edges_tmp:
